@@ -35,6 +35,7 @@ struct C01 : Driver {
     c.runs.push_back(compress_cfg(rng, level, seq, random_workers(rng), true));
     c.runs.push_back(decompress_cfg(rng, random_workers(rng), true, c.data.size() / 2 + 100, c.data.size()));
     if (rng.below(8) == 0) use_default_workers(c.runs[rng.below(2)]);      // no -n: one worker per (simulated) CPU
+    if (rng.below(8) == 0) c.runs[rng.below(2)].operand2 = true;            // the data as the second FILE operand of the invocation
     return c;
   }
   Verdict eval(const Case &c, Ctx &ctx) const override {
@@ -86,6 +87,7 @@ struct C03 : Driver {
       if (k == 0) { r.sched = sim::Sched(); r.sched.policy = sim::P_DEFAULT; r.in_kind = sim::K_FILE; }
       else if (rng.below(3) == 0) { r.argv.push_back("f"); }     // FILE operand: f -> f.bz2
       if (k != 0 && rng.below(10) == 0) use_default_workers(r);
+      if (k != 0 && r.argv.back() != "f" && rng.below(8) == 0) r.operand2 = true;     // as the second FILE operand: still the same bytes
       c.runs.push_back(r);
     }
     return c;
@@ -414,10 +416,15 @@ static Case gen_mixed(uint64_t seed, int tier, const char *prop, bool threads_on
     c.runs.push_back(decompress_cfg(rng, threads_only ? 2 + (int)rng.below(7) : random_workers(rng), true, c.data.size() / 2 + 100, c.data.size()));
   } else if (kind == 1) {
     Bytes plain; int validity;
-    bool filler = rng.below(8) == 0;
+    bool filler = rng.below(8) == 0, planted = !filler && rng.below(4) == 0;
     if (filler) { W = 2 + (int)rng.below(3); c.data = queue_filler(rng, W, &c.data_desc); }
+    else if (planted) {   // spurious block-header patterns (C10's generator): the discard paths of the speculative decoder under the sanitizers too (seeded change C08-3)
+      int pk = 0; c.data = bz::gen_planted(rng, &pk).bytes; c.data_desc = "planted-pattern kind " + std::to_string(pk);
+      if (W < 2) W = 2 + (int)rng.below(4);
+    }
     else c.data = some_compressed(rng, tier, &plain, &c.data_desc, &validity);
-    c.runs.push_back(decompress_cfg(rng, W, true, c.data.size(), plain.size() + 1));
+    c.runs.push_back(decompress_cfg(rng, W, true, c.data.size(), planted ? 4000 : plain.size() + 1));
+    if (planted) { static const size_t ig[] = {4, 8, 12, 16, 32, 64, 128, 256, 1024, 0}; c.runs.back().in_granul = ig[rng.below(10)]; }
     if (filler && rng.below(4)) stall_a_worker(rng, c.runs.back());
     if (rng.below(4) == 0) c.runs.back().argv.push_back("-t");
   } else if (kind == 2) {
@@ -492,7 +499,7 @@ static Registrar r12(new C12);
 struct C08 : Driver {
   const char *prop() const override { return "C08"; }
   const char *level() const override { return "exploration"; }
-  uint64_t ncases(int tier) const override { return tier ? 20000 : 1800; }
+  uint64_t ncases(int tier) const override { return tier ? 20000 : 3000; }
   const char *variants(int tier) const override { return tier ? "asan asan-ndebug vg/40" : "asan asan-ndebug vg/12"; }   // vg: plain build under valgrind memcheck (uninitialised-value decisions, uninitialised output bytes)
   std::string rule() const override {
     return "case = compression+decompression, decompression of valid/defective/truncated/planted streams with input block sizes down to 4 bytes and output buffers down to 1 byte, or -cdf copy, any -n, seeded schedule, "
